@@ -203,6 +203,29 @@ several servers counts once -/
 def presentOf (answers : List (Nat × Nat)) (uebTotal : Option Nat) : Bool :=
   alreadyPresent (answers.map (·.2)) uebTotal
 
+/-- what happens on a grid over time, as far as the helper's question is concerned: a share file
+appears on a server, a share file disappears (server lost, disk failure, deletion), a client asks the
+helper about the file -/
+inductive GridEvent
+  | placed (srv shnum : Nat)
+  | lost (srv shnum : Nat)
+  | query
+  deriving DecidableEq, Repr
+
+/-- the share files on the servers after a history (what `get_buckets` would answer now) -/
+def gridAfter : List (Nat × Nat) → List GridEvent → List (Nat × Nat)
+  | g, [] => g
+  | g, .placed s n :: rest => gridAfter (if g.contains (s, n) then g else g ++ [(s, n)]) rest
+  | g, .lost s n :: rest => gridAfter (g.filter (fun x => !(x == (s, n)))) rest
+  | g, .query :: rest => gridAfter g rest
+
+/-- the helper's answers to the queries of a history: `_check_chk` asks the servers **each time**
+(`CHKCheckerAndUEBFetcher`); the helper keeps no memory of earlier uploads of the storage index -/
+def answersOver (total : Nat) : List (Nat × Nat) → List GridEvent → List Bool
+  | _, [] => []
+  | g, .query :: rest => presentOf g (if g.isEmpty then none else some total) :: answersOver total g rest
+  | g, e :: rest => answersOver total (gridAfter g [e]) rest
+
 /-- `Helper.remote_upload_chk` / `_did_chk_check`: either results and no upload helper (nothing will be
 written), or an upload helper (existing active one, or a new one) -/
 inductive Answer
